@@ -134,6 +134,7 @@ structure RS where
   bdChecked : Nat := 0        -- decisions of breakdown_lookahead compared
   newExt : Option (Array (Nat × Nat × String)) := none  -- external-token leaves of the (error-free) new tree
   extChecked : Nat := 0
+  reordered : Nat := 0        -- refusals whose logged reason is a failing test but not the first one
   maxPos : Nat := 0           -- furthest position any stack version has been seen at
   indexSkipped : Nat := 0     -- events explained only by `included_range_difference_index` having
                               -- skipped a difference that still lies ahead of the current version
@@ -196,8 +197,10 @@ def RS.gateEvent (s : RS) (L : Lang) (symName : Nat → String) (ev : Verdict) (
         | none => (0, false)   -- parse state re-read from the stack after a breakdown: first-leaf test undetermined
       let v := reuseGate L s.diffs.toList t off s.pos stv extEq ld
       let v' := reuseGate L live t off s.pos stv extEq ld
+      let inSet := fun (ds : List (Nat × Nat)) => decide (off = s.pos) && extEq && (refusalReasons ds t off ld).contains ev
       let s :=
         if v = ev then { s with matched := s.matched + 1 }
+        else if inSet s.diffs.toList then { s with matched := s.matched + 1, reordered := s.reordered + 1 }
         else if !known && fl v && fl ev then { s with undet := s.undet + 1 }
         else if v' = ev then { s with matched := s.matched + 1, indexSkipped := s.indexSkipped + 1 }
         else if !known && fl v' && fl ev then { s with undet := s.undet + 1, indexSkipped := s.indexSkipped + 1 }
